@@ -18,8 +18,10 @@ LowIndexShapeP(c) == LET ps == Positionals(c) IN \E k \in 1..Len(ps) : IsMultipl
 RECURSIVE PrefixLevelV(_, _, _, _, _, _, _)
 PrefixLevelV(c, argv, start, cur, fsat, fsskip, via) ==
   LET lr == Loop(c, InitState(cur, fsat, fsskip), argv, start) IN
-  CASE lr.t = "end" -> [ok |-> TRUE, ext |-> FALSE, c |-> c, st |-> lr.st, via |-> via]
-    [] lr.t = "ext" -> [ok |-> TRUE, ext |-> TRUE, c |-> c, st |-> lr.st, via |-> via]
+  CASE lr.t = "end" -> [ok |-> TRUE, ext |-> FALSE, c |-> c, st |-> lr.st, via |-> via, help |-> FALSE, hw |-> <<>>]
+    [] lr.t = "ext" -> [ok |-> TRUE, ext |-> TRUE, c |-> c, st |-> lr.st, via |-> via, help |-> FALSE, hw |-> <<>>]
+    \* the generated help subcommand: the words after it walk the mirror of the tree below this level
+    [] lr.t = "helpsub" -> [ok |-> FALSE, ext |-> FALSE, c |-> c, st |-> lr.st, via |-> via, help |-> TRUE, hw |-> SubSeq(argv, lr.x.i + 1, Len(argv))]
     [] lr.t \in {"sub", "subkeep"} ->
          LET st == lr.st
              keep == lr.t = "subkeep" /\ st.fsat # -1
@@ -29,11 +31,11 @@ PrefixLevelV(c, argv, start, cur, fsat, fsskip, via) ==
                     \cup (IF st.ps.k # "done" THEN {"precedence"} ELSE {})
                     \cup (IF LowIndexShapeP(c) /\ st.pos > 1 THEN {"lowindex"} ELSE {})
          IN IF (Set(c, "args_conflicts_with_subcommands") /\ st.valid) \/ si = 0 \/ SubView(c)[si].auto
-            THEN [ok |-> FALSE, ext |-> FALSE, c |-> c, st |-> st, via |-> via]
+            THEN [ok |-> FALSE, ext |-> FALSE, c |-> c, st |-> st, via |-> via, help |-> FALSE, hw |-> <<>>]
             ELSE LET child == Build(c.subs[SubView(c)[si].i], c.childInh) IN
                  IF keep THEN PrefixLevelV(child, argv, lr.x.i, st.cur, st.fsat, st.fsskip, via \cup how)
                  ELSE PrefixLevelV(child, argv, lr.x.i + 1, 0, -1, 0, via \cup how)
-    [] OTHER -> [ok |-> FALSE, ext |-> FALSE, c |-> c, st |-> lr.st, via |-> via]     \* error, help subcommand, panic
+    [] OTHER -> [ok |-> FALSE, ext |-> FALSE, c |-> c, st |-> lr.st, via |-> via, help |-> FALSE, hw |-> <<>>]     \* error, panic
 PrefixLevel(c, argv, start, cur, fsat, fsskip) == PrefixLevelV(c, argv, start, cur, fsat, fsskip, {})
 
 \* "where a new argument may start": no option awaiting a value, before any `--`
@@ -105,15 +107,39 @@ HiddenOnlyIfNothingVisible(c, cands) ==
   (\E i \in 1..Len(cands) : ~DeclaredHidden(c, cands[i])) => \A i \in 1..Len(cands) : ~DeclaredHidden(c, cands[i])
 
 LowIndexShape(c) == LowIndexShapeP(c)
+\* ---- below the generated help subcommand -----------------------------------------------------------------------
+\* `help a b <TAB>`: the words walk the command tree by subcommand *names* (the mirror keeps names and hiddenness only);
+\* node = the raw definition reached, top = still at the help subcommand itself (which also offers its own `help`)
+RECURSIVE MirrorAt(_, _, _)
+MirrorAt(d, hw, k) ==
+  IF k > Len(hw) THEN [ok |-> TRUE, d |-> d]
+  ELSE IF \E i \in 1..Len(d.subs) : d.subs[i].name = hw[k]
+       THEN MirrorAt(d.subs[CHOOSE i \in 1..Len(d.subs) : d.subs[i].name = hw[k]], hw, k + 1)
+       ELSE [ok |-> FALSE, d |-> d]
+P18Help(p, w, obs) ==
+  LET m == MirrorAt(p.c, p.hw, 1) IN
+  (m.ok /\ IsUtf8(w) /\ (w = <<>> \/ w[1] # 45)) =>
+     LET d == m.d
+         names(hid) == {d.subs[i].name : i \in {j \in 1..Len(d.subs) : d.subs[j].hide = hid /\ StartsWith(d.subs[j].name, w)}}
+         own == IF p.hw = <<>> /\ StartsWith(HELP, w) THEN {HELP} ELSE {}          \* `help help`
+         offered == {obs.cands[j].value : j \in {q \in 1..Len(obs.cands) : obs.cands[q].k = "command"}}
+     IN /\ offered \subseteq names(FALSE) \cup names(TRUE) \cup own                 \* only subcommands of that level
+        /\ names(FALSE) \subseteq offered                                          \* every visible one
+        /\ (names(FALSE) \cup own # {} => offered \cap names(TRUE) = {})            \* hidden only when nothing visible matches
 \* ---- C18 on one observation: obs = [panicked, err, cands] ------------------------------------------
-P18(def, words, i, obs) ==
+\* reused: the Command value had already parsed the preceding words.  A parse builds lazily and marks the command built, so
+\* the engine's later build no longer expands the generated help subcommand into its mirror tree (the root cause of
+\* KF-C11-1): below `help` such a command has nothing to offer, and the help clause is stated for fresh commands only.
+P18R(def, words, i, obs, reused) ==
   LET c0 == Build(def, NoInherit)
       p == PrefixLevel(c0, SubSeq(words, 1, i - 1), 1, 0, -1, 0)
       w == words[i]
       represented == {[k |-> obs.cands[j].k, id |-> obs.cands[j].id] : j \in 1..Len(obs.cands)}
   IN /\ ~obs.panicked
+     /\ (p.help /\ ~reused /\ (\A k \in 1..(i - 1) : words[k] # <<45, 45>>) => P18Help(p, w, obs))
      /\ (NewArgMayStart(p, SubSeq(words, 1, i - 1)) =>
            /\ \A j \in 1..Len(obs.cands) : CandidateSound(p.c, p.st, w, obs.cands[j])
            /\ MustIds(p.c, p.st, w) \subseteq represented
            /\ HiddenOnlyIfNothingVisible(p.c, obs.cands))
+P18(def, words, i, obs) == P18R(def, words, i, obs, FALSE)
 =============================================================================
